@@ -1,4 +1,190 @@
-import UH.Model.Interp
+/-
+C18 — printed form is canonical and re-readable; exit status is the program's result.
+-/
+import UH.Model.Main
 namespace UH.C18
-theorem placeholder : True := trivial
+open UH
+
+/-! ### a dictionary prints its entries sorted by printed key, whatever the insertion order -/
+
+theorem sortByKey_cons (p : String × String) (l : List (String × String)) :
+    sortByKey (p :: l) = insertByKey p (sortByKey l) := by
+  simp [sortByKey, List.foldl_append]
+
+theorem insert_comm (a b : String × String) (h : a.1 < b.1) :
+    ∀ l, insertByKey a (insertByKey b l) = insertByKey b (insertByKey a l) := by
+  have hba : ¬ (b.1 < a.1) := String.lt_asymm h
+  intro l
+  induction l with
+  | nil => simp [insertByKey, h, hba]
+  | cons q r ih =>
+    by_cases hbq : b.1 < q.1
+    · have haq : a.1 < q.1 := String.lt_trans h hbq
+      simp [insertByKey, hbq, haq, h, hba]
+    · by_cases haq : a.1 < q.1
+      · simp [insertByKey, hbq, haq, hba]
+      · simp [insertByKey, hbq, haq, ih]
+
+theorem insert_comm_ne (a b : String × String) (hne : a.1 ≠ b.1) (l : List (String × String)) :
+    insertByKey a (insertByKey b l) = insertByKey b (insertByKey a l) := by
+  rcases String.le_total a.1 b.1 with h | h
+  · have : a.1 < b.1 := by
+      rcases Decidable.em (a.1 < b.1) with h' | h'
+      · exact h'
+      · exact absurd (String.le_antisymm h (String.not_lt.mp h')) hne
+    exact insert_comm a b this l
+  · have : b.1 < a.1 := by
+      rcases Decidable.em (b.1 < a.1) with h' | h'
+      · exact h'
+      · exact absurd (String.le_antisymm (String.not_lt.mp h') h) hne
+    exact (insert_comm b a this l).symm
+
+/-- **insertion order does not matter**: two entry lists that are permutations of each other, with
+distinct printed keys, are printed in the same order -/
+theorem sortByKey_perm (l₁ l₂ : List (String × String)) (hp : l₁.Perm l₂)
+    (hd : (l₁.map Prod.fst).Nodup) : sortByKey l₁ = sortByKey l₂ := by
+  induction hp with
+  | nil => rfl
+  | cons x _ ih =>
+    simp only [List.map_cons, List.nodup_cons] at hd
+    rw [sortByKey_cons, sortByKey_cons, ih hd.2]
+  | swap x y l =>
+    simp only [List.map_cons, List.nodup_cons, List.mem_cons, not_or] at hd
+    rw [sortByKey_cons, sortByKey_cons, sortByKey_cons, sortByKey_cons]
+    exact insert_comm_ne y x (fun e => hd.1.1 e) _
+  | trans h₁ _ ih₁ ih₂ =>
+    rw [ih₁ hd, ih₂ ((h₁.map Prod.fst).nodup_iff.mp hd)]
+
+
+/-! ### integers print in a form `ㅈㅅ` reads back to the same number -/
+
+theorem digitVal_digitChar (d : Nat) (h : d < 10) : digitVal (Nat.digitChar d) = some d := by
+  have : d = 0 ∨ d = 1 ∨ d = 2 ∨ d = 3 ∨ d = 4 ∨ d = 5 ∨ d = 6 ∨ d = 7 ∨ d = 8 ∨ d = 9 := by omega
+  rcases this with h | h | h | h | h | h | h | h | h | h <;> subst h <;> decide
+
+theorem digitChar_ne_underscore (d : Nat) (h : d < 10) : (Nat.digitChar d == '_') = false := by
+  have : d = 0 ∨ d = 1 ∨ d = 2 ∨ d = 3 ∨ d = 4 ∨ d = 5 ∨ d = 6 ∨ d = 7 ∨ d = 8 ∨ d = 9 := by omega
+  rcases this with h | h | h | h | h | h | h | h | h | h <;> subst h <;> decide
+
+/-- the digit loop of `int(s, 10)` on the decimal digits of `n`, followed by anything -/
+theorem go_toDigits (n : Nat) : ∀ (rest : List Char) (acc : Nat) (prev any : Bool),
+    parseDigits.go 10 (Nat.toDigits 10 n ++ rest) acc prev any =
+      parseDigits.go 10 rest (acc * 10 ^ (Nat.toDigits 10 n).length + n) true true := by
+  induction n using Nat.strongRecOn with
+  | _ n ih =>
+    intro rest acc prev any
+    rw [Nat.toDigits_eq_if (by decide)]
+    by_cases hlt : n < 10
+    · simp only [hlt, if_true, List.cons_append, List.nil_append, List.length_cons, List.length_nil]
+      rw [parseDigits.go]
+      simp [digitChar_ne_underscore n hlt, digitVal_digitChar n hlt, hlt]
+    · simp only [hlt, if_false, List.append_assoc, List.cons_append, List.nil_append, List.length_append,
+        List.length_cons, List.length_nil]
+      rw [ih (n / 10) (by omega)]
+      have hd : n % 10 < 10 := Nat.mod_lt _ (by decide)
+      rw [parseDigits.go]
+      simp only [digitChar_ne_underscore _ hd, digitVal_digitChar _ hd, hd, if_true, Bool.false_eq_true, if_false]
+      congr 1
+      rw [Nat.pow_succ, ← Nat.mul_assoc, Nat.add_mul]
+      omega
+
+theorem parseDigits_toDigits (n : Nat) : parseDigits 10 false (Nat.toDigits 10 n) = some n := by
+  have h := go_toDigits n [] 0 false false
+  simp only [List.append_nil, Nat.zero_mul, Nat.zero_add] at h
+  have hne : Nat.toDigits 10 n ≠ [] := Nat.toDigits_ne_nil
+  have hund : ∀ r, Nat.toDigits 10 n ≠ '_' :: r := by
+    intro r e
+    have : '_' ∈ Nat.toDigits 10 n := by rw [e]; exact List.mem_cons_self
+    exact Nat.underscore_not_in_toDigits this
+  unfold parseDigits
+  split
+  · rename_i r e; exact absurd e (hund r)
+  · rw [h]; simp [parseDigits.go]
+
+theorem digitChar_not_space (d : Nat) (h : d < 10) : isPyspace (Nat.digitChar d) = false := by
+  have : d = 0 ∨ d = 1 ∨ d = 2 ∨ d = 3 ∨ d = 4 ∨ d = 5 ∨ d = 6 ∨ d = 7 ∨ d = 8 ∨ d = 9 := by omega
+  rcases this with h | h | h | h | h | h | h | h | h | h <;> subst h <;> decide
+
+theorem toDigits_head (n : Nat) : ∃ d, d < 10 ∧ ∃ t, Nat.toDigits 10 n = Nat.digitChar d :: t := by
+  induction n using Nat.strongRecOn with
+  | _ n ih =>
+    rw [Nat.toDigits_eq_if (by decide)]
+    by_cases hlt : n < 10
+    · exact ⟨n, hlt, [], by simp [hlt]⟩
+    · obtain ⟨d, hd, t, ht⟩ := ih (n / 10) (by omega)
+      exact ⟨d, hd, t ++ [Nat.digitChar (n % 10)], by simp [hlt, ht]⟩
+
+theorem toDigits_last (n : Nat) : ∃ d, d < 10 ∧ ∃ i, Nat.toDigits 10 n = i ++ [Nat.digitChar d] := by
+  rw [Nat.toDigits_eq_if (by decide)]
+  by_cases hlt : n < 10
+  · exact ⟨n, hlt, [], by simp [hlt]⟩
+  · exact ⟨n % 10, Nat.mod_lt _ (by decide), Nat.toDigits 10 (n / 10), by simp [hlt]⟩
+
+/-- stripping leaves a text alone whose first and last characters are not white space -/
+theorem strip_id (l : List Char) (a z : Char) (t i : List Char) (h1 : l = a :: t) (h2 : l = i ++ [z])
+    (ha : isPyspace a = false) (hz : isPyspace z = false) : pyStrip (String.ofList l) = String.ofList l := by
+  unfold pyStrip
+  rw [String.toList_ofList]
+  have e1 : l.dropWhile isPyspace = l := by rw [h1]; simp [List.dropWhile, ha]
+  rw [e1]
+  have e2 : l.reverse.dropWhile isPyspace = l.reverse := by
+    rw [h2]; simp [List.dropWhile, hz]
+  rw [e2, List.reverse_reverse]
+
+theorem intPrefix_ten (cs : List Char) : intPrefix 10 cs = none := by
+  unfold intPrefix
+  split <;> simp
+
+theorem intSign_digit (d : Nat) (hd : d < 10) (t : List Char) :
+    intSign (Nat.digitChar d :: t) = (false, Nat.digitChar d :: t) := by
+  have : d = 0 ∨ d = 1 ∨ d = 2 ∨ d = 3 ∨ d = 4 ∨ d = 5 ∨ d = 6 ∨ d = 7 ∨ d = 8 ∨ d = 9 := by omega
+  rcases this with h | h | h | h | h | h | h | h | h | h <;> subst h <;> rfl
+
+theorem intMag_toDigits (n : Nat) : intMag 10 (Nat.toDigits 10 n) = some n := by
+  simp [intMag, intPrefix_ten, parseDigits_toDigits]
+
+theorem repr_strip (n : Nat) : pyStrip (Nat.repr n) = Nat.repr n := by
+  obtain ⟨d, hd, t, ht⟩ := toDigits_head n
+  obtain ⟨d', hd', i, hi⟩ := toDigits_last n
+  exact strip_id _ _ _ t i ht hi (digitChar_not_space d hd) (digitChar_not_space d' hd')
+
+/-- **`ㅈㅅ(ㅁㅈ(n)) = n` for every integer**: the decimal string `ㅁㅈ` produces is read back to
+the same integer by the base-10 integer parser -/
+theorem int_readback (n : Int) : pyIntOfString (toString n) 10 = some n := by
+  rw [Int.toString_eq_repr, Int.repr_eq_if]
+  have hb : ¬ ((10 : Int) ≠ 0 ∧ ((10 : Int) < 2 ∨ (10 : Int) > 36)) := by omega
+  have h10 : (10 : Int).toNat = 10 := rfl
+  by_cases hn : 0 ≤ n
+  · simp only [hn, if_true]
+    obtain ⟨d, hd, t, ht⟩ := toDigits_head n.toNat
+    have hl : (Nat.repr n.toNat).toList = Nat.toDigits 10 n.toNat := String.toList_ofList
+    unfold pyIntOfString
+    simp only [hb, if_false, repr_strip, hl, h10]
+    have hm := intMag_toDigits n.toNat
+    rw [ht] at hm ⊢
+    rw [intSign_digit d hd t]
+    simp only [hm, Option.map_some, Bool.false_eq_true, if_false]
+    simp; omega
+  · simp only [hn, if_false]
+    obtain ⟨d', hd', i, hi⟩ := toDigits_last (-n).toNat
+    have hl : ("-" ++ Nat.repr (-n).toNat).toList = '-' :: Nat.toDigits 10 (-n).toNat := by
+      rw [String.toList_append]
+      have : (Nat.repr (-n).toNat).toList = Nat.toDigits 10 (-n).toNat := String.toList_ofList
+      rw [this]; rfl
+    have hs : pyStrip ("-" ++ Nat.repr (-n).toNat) = "-" ++ Nat.repr (-n).toNat := by
+      have e : "-" ++ Nat.repr (-n).toNat = String.ofList ('-' :: Nat.toDigits 10 (-n).toNat) := by
+        apply String.ext; rw [hl, String.toList_ofList]
+      rw [e]
+      exact strip_id _ '-' (Nat.digitChar d') _ ('-' :: i) rfl (by rw [hi]; rfl) (by decide) (digitChar_not_space d' hd')
+    unfold pyIntOfString
+    simp only [hb, if_false, hs, hl, h10]
+    have : intSign ('-' :: Nat.toDigits 10 (-n).toNat) = (true, Nat.toDigits 10 (-n).toNat) := rfl
+    rw [this]
+    simp only [intMag_toDigits, Option.map_some, if_true]
+    simp; omega
+
+-- examples
+example : pyIntOfString "  -0x1F " 16 = some (-31) ∧ pyIntOfString "1_000" 10 = some 1000 ∧
+    pyIntOfString "010" 0 = none ∧ pyIntOfString "12" 1 = none := by decide +kernel
+
 end UH.C18
